@@ -21,11 +21,13 @@ VARIABLES tid, l, phase, lastUser, corrupt,
           notif,   \* C17: <<side, object>> -> virtual time (ms) the engine was last notified of a change to it
           cur,     \* C17: the entry being synchronised in the current sync step: [oids, neg]
           aging,   \* C17: configured ageing interval (ms)
-          walked   \* C06: a restart without a usable cursor happened (full walk: deletions are not promised)
+          walked,  \* C06: a restart without a usable cursor happened (full walk: deletions are not promised)
+          xf,      \* C14: bag of effective engine transfers of this run: <<side, op, path, cid>> -> count
+          runA     \* C14: summary of the reference run of a paired trace: [quiet, xf, conf], or [quiet |-> <<>>] when none
 tvars == <<tr, written, killed, dropped, merged, expect, exOK, chg, anc, origin, win, tags,
-           tid, l, phase, lastUser, corrupt, base0, kase, nres, pfault, notif, cur, aging, walked>>
-Aux == <<base0, kase, nres, pfault, notif, cur, aging, walked>>
-Sched == <<notif, cur, aging, walked>>
+           tid, l, phase, lastUser, corrupt, base0, kase, nres, pfault, notif, cur, aging, walked, xf, runA>>
+Aux == <<base0, kase, nres, pfault, notif, cur, aging, walked, xf, runA>>
+Sched == <<notif, cur, aging, walked, xf, runA>>
 
 Traces == JsonDeserialize(IOEnv.TRACE_FILE)
 Tr == Traces[tid]
@@ -55,6 +57,7 @@ TraceInit ==
   /\ phase = "run" /\ lastUser = <<EmptyTree, EmptyTree>> /\ corrupt = {}
   /\ base0 = EmptyTree /\ kase = [kind |-> "none"] /\ nres = 0 /\ pfault = 0
   /\ notif = <<>> /\ cur = [oids |-> <<0, 0>>, neg |-> 0] /\ aging = 0 /\ walked = FALSE
+  /\ xf = <<>> /\ runA = [quiet |-> <<>>]
 
 \* ---- the synchronised starting point ----------------------------------------------------------
 TBase ==
@@ -64,7 +67,7 @@ TBase ==
        /\ written' = (Cells(o[1]) \cup Cells(o[2])) \ {DIR}
        /\ base0' = o[1]
   /\ aging' = Ev.aging_ms
-  /\ UNCHANGED <<killed, dropped, merged, exOK, chg, anc, origin, win, tags, phase, corrupt, kase, nres, pfault, notif, cur, walked>>
+  /\ UNCHANGED <<killed, dropped, merged, exOK, chg, anc, origin, win, tags, phase, corrupt, kase, nres, pfault, notif, cur, walked, xf, runA>>
   /\ Advance
 
 \* ---- a user operation (environment) ---------------------------------------------------------------
@@ -139,7 +142,34 @@ TECall ==
               /\ Conform(ECallApplicable(s), "ECallApplicability")
               /\ tr' = [tr EXCEPT ![s] = ECallEffect(s)]
          ELSE tr' = tr
-  /\ LedgerFrame /\ UNCHANGED <<phase, lastUser, corrupt>> /\ UNCHANGED Aux
+  /\ xf' = IF Ev.res = OK /\ Ev.noop = 0 /\ Ev.op \in {"create", "upload", "delete", "rename"}
+             THEN LET k == <<Ev.side, Ev.op, Ev.path, Ev.cid>> IN
+                  [x \in DOMAIN xf \cup {k} |-> IF x = k THEN (IF k \in DOMAIN xf THEN xf[k] + 1 ELSE 1) ELSE xf[x]]
+             ELSE xf
+  /\ LedgerFrame /\ UNCHANGED <<phase, lastUser, corrupt, base0, kase, nres, pfault, notif, cur, aging, walked, runA>>
+  /\ Advance
+
+\* ---- C14: paired traces - the same history and sync schedule with prompt in-order delivery (run A) and with a
+\* mangled event stream (run B).  "SecondRun" closes run A and re-initialises; "Compare" judges B against A.
+TSecondRun ==
+  /\ Ev.ev = "SecondRun"
+  /\ runA' = [quiet |-> tr, xf |-> xf, conf |-> ConflictedPaths(tr[1]) \cup ConflictedPaths(tr[2])]
+  /\ tr' = <<EmptyTree, EmptyTree>>
+  /\ written' = {} /\ killed' = {} /\ dropped' = {} /\ merged' = {}
+  /\ expect' = EmptyTree /\ exOK' = TRUE
+  /\ chg' = <<{}, {}>> /\ anc' = <<{}, {}>> /\ origin' = 0
+  /\ win' = EmptyWin /\ tags' = tags
+  /\ phase' = "run" /\ lastUser' = <<EmptyTree, EmptyTree>> /\ corrupt' = {}
+  /\ base0' = EmptyTree /\ nres' = 0 /\ pfault' = 0
+  /\ notif' = <<>> /\ cur' = [oids |-> <<0, 0>>, neg |-> 0] /\ xf' = <<>>
+  /\ UNCHANGED <<kase, aging, walked>>
+  /\ Advance
+TCompare ==
+  /\ Ev.ev = "Compare"
+  /\ Check(tr = runA.quiet, "SameQuietTrees")
+  /\ Check(\A k \in DOMAIN xf : k \in DOMAIN runA.xf /\ xf[k] <= runA.xf[k], "NoSpuriousTransfers")
+  /\ Check((ConflictedPaths(tr[1]) \cup ConflictedPaths(tr[2])) \subseteq runA.conf, "NoExtraConflicted")
+  /\ UNCHANGED <<tr, phase, lastUser, corrupt>> /\ LedgerFrame /\ UNCHANGED Aux
   /\ Advance
 
 \* ---- step boundaries ------------------------------------------------------------------------------------
@@ -276,19 +306,19 @@ TIntake ==
   /\ Ev.ev = "Intake"
   /\ LET k == <<Ev.side + 1, Ev.oid>> IN
        notif' = [x \in DOMAIN notif \cup {k} |-> IF x = k THEN Ev.now ELSE notif[x]]
-  /\ UNCHANGED <<tr, phase, lastUser, corrupt, base0, kase, nres, pfault, cur, aging, walked>> /\ LedgerFrame
+  /\ UNCHANGED <<tr, phase, lastUser, corrupt, base0, kase, nres, pfault, cur, aging, walked, xf, runA>> /\ LedgerFrame
   /\ Advance
 TSyncEntry ==
   /\ Ev.ev = "SyncEntry"
   /\ cur' = [oids |-> Ev.oids, neg |-> Ev.neg]
-  /\ UNCHANGED <<tr, phase, lastUser, corrupt, base0, kase, nres, pfault, notif, aging, walked>> /\ LedgerFrame
+  /\ UNCHANGED <<tr, phase, lastUser, corrupt, base0, kase, nres, pfault, notif, aging, walked, xf, runA>> /\ LedgerFrame
   /\ Advance
 \* C06: a new engine is started over the same storage and accounts
 TRestart ==
   /\ Ev.ev = "Restart"
   /\ walked' = (walked \/ Ev.variant # "intact")
   /\ tr' = Obs(Ev.post)
-  /\ UNCHANGED <<phase, lastUser, corrupt, base0, kase, nres, pfault, notif, cur, aging>> /\ LedgerFrame
+  /\ UNCHANGED <<phase, lastUser, corrupt, base0, kase, nres, pfault, notif, cur, aging, xf, runA>> /\ LedgerFrame
   /\ Advance
 
 \* events that carry no obligation for this module (other modules extend the disjunction)
@@ -302,7 +332,7 @@ TSkip ==
 TraceNext ==
   /\ l <= Len(Tr)
   /\ \/ TBase \/ TUser \/ TECall \/ TStepEnd \/ TQuiet \/ TNoQuiet \/ TEscape \/ TAfter \/ TResolve
-     \/ TCorrupt \/ TSkip \/ TCase \/ TFault \/ TNotify \/ TIntake \/ TSyncEntry \/ TRestart
+     \/ TCorrupt \/ TSkip \/ TCase \/ TFault \/ TNotify \/ TIntake \/ TSyncEntry \/ TRestart \/ TSecondRun \/ TCompare
 TraceSpec == TraceInit /\ [][TraceNext]_tvars
 
 ASSUME TLCSet(1, {}) /\ TLCSet(2, 0) /\ TLCSet(3, {})
